@@ -19,7 +19,7 @@ identical or power-of-two rescaled direction vector) or separated by >= 1e-3 rel
 import math, itertools
 import numpy as np
 from mc.core import call, HarnessError
-from mc import alph
+from mc import alph, hist
 
 PROP = 'C19'
 LEVEL = 'exploration'
@@ -229,7 +229,7 @@ SITE = {'eq': 'Plucker.__eq__', 'ne': 'Plucker.__ne__', 'or': 'Plucker.__or__', 
 class LineDesc:
     """one base line handed to one constructor: defining data + reference line (pref, uref)"""
     __slots__ = ('ctor', 'form', 'phi', 'pt', 'mag', 'dir', 'len', 'P', 'u', 'ln', 'd', 'defpts', 'planes',
-                 'pref', 'uref', 'm', 'trivial', 'Q', 'pair')
+                 'pref', 'uref', 'm', 'trivial', 'Q', 'pair', 'tag')
 
     def params(self):
         return {'ctor': self.ctor, 'form': self.form, 'phi': self.phi, 'pt': self.pt, 'mag': self.mag,
@@ -237,7 +237,7 @@ class LineDesc:
 
     def base(self):
         c = self.ctor if self.ctor != 'Planes' else 'Planes:%s:%s' % (self.form, self.phi)
-        return 'C19/%s/pt=%s*%s/dir=%s*%s' % (c, self.pt, self.mag, self.dir, self.len)
+        return 'C19/%s/pt=%s*%s/dir=%s*%s' % (c, self.pt, self.mag, self.dir, self.len) + ('/hist=%s' % self.tag if getattr(self, 'tag', None) else '')
 
 
 def make_desc(ctor, form, phi, pt, mag, P, dname, u, lname, ln):
@@ -1038,10 +1038,25 @@ def run_shard(ctx, shard):
             ctx.count('dropped_out_of_domain_lines')
             continue
         ld.pair = l[-1]
+        ld.tag = None
         base = ld.base()
         if ctx.only is not None and not ctx.only.startswith(base + '/'):
             continue
         okL, L, siteL = build(ld)
         fam_single(ctx, ld, L, okL, siteL, tier, seed)
+        if okL and alph.thin(base, 'quick', 4, 4) and check_lineobj(L, 1.0, '') is None:
+            # the same line held by an object with a history: every query had been answered for another line before
+            def warm(o):
+                for f in (lambda: o.pp, lambda: o.ppd, lambda: o.uw, lambda: o.contains(ld.pref), lambda: o.point(0.3), lambda: o.closest(np.array([1.0, 2.0, 3.0])),
+                          lambda: o.vec, lambda: o.skew(), lambda: o == o, lambda: o.distance(o), lambda: o.intersect_plane([0, 0, 1, 0])):
+                    try:
+                        f()
+                    except Exception:
+                        pass
+            for tag, Lh in hist.variants(L, warm, fresh=False):
+                ld.tag = tag
+                if ctx.only is None or ctx.only.startswith(ld.base() + '/'):
+                    fam_single(ctx, ld, Lh, True, siteL, tier, seed)
+                ld.tag = None
         if okL and ld.pair:
             fam_pairs(ctx, ld, L, tier)
